@@ -68,6 +68,10 @@ pub fn flow(t: usize, vals: &[V], rich: Rich) -> Vec<Letter> {
         u(Some(2), "COGEN", "GASNATURAL", &scale(first, 2, 1)),
         u(Some(2), "COGEN", "BIOMASA", &scale(last, 1, 1)),
     ]));
+    // systems with auxiliaries (the only electricity of the building unless other letters add some), outputs, demand
+    al.push(Letter::many(vec![u(Some(7), "CAL", "GASNATURAL", last), a(Some(7), first)]));
+    al.push(Letter::many(vec![u(Some(8), "ACS", "GASNATURAL", mid), u(Some(8), "CAL", "GASNATURAL", last), o(8, "ACS", mid), o(8, "CAL", first), a(Some(8), mid)]));
+    al.push(Letter::one(d("ACS", last)));
     if rich == Rich::Wide {
         al.push(Letter::many(vec![p(Some(2), "EL_COGEN", first), u(Some(2), "COGEN", "RED1", &scale(last, 2, 1))]));
         al.push(Letter::one(u(Some(4), "ACS", "RED2", last)));
@@ -165,4 +169,53 @@ pub fn vocab_letters() -> Vec<Letter> {
 
 pub fn vocab_base() -> Vec<(String, String)> {
     vec![("small building".to_string(), "0, CONSUMO, ILU, ELECTRICIDAD, 3, 1\n0, PRODUCCION, EL_INSITU, 1, 3\n1, CONSUMO, CAL, GASNATURAL, 2, 2\n".to_string()), ("empty".to_string(), String::new())]
+}
+
+/// TINY: values around the absolute thresholds that appear in the code (1e-3 kWh, 0.01 kWh, f32::EPSILON),
+/// written as raw text (below the hundredth-of-kWh resolution of `V`).
+pub fn tiny_letters() -> Vec<Letter> {
+    let r = |s: &str| Letter::one(Line::Raw(s.to_string()));
+    let m = |v: &[&str]| Letter::many(v.iter().map(|s| Line::Raw(s.to_string())).collect());
+    vec![
+        r("0, CONSUMO, ILU, ELECTRICIDAD, 0.0008, 0.5"),
+        r("0, CONSUMO, ILU, ELECTRICIDAD, 0.002, 0.0004"),
+        r("1, CONSUMO, ACS, ELECTRICIDAD, 0.0005, 0.25"),
+        r("0, CONSUMO, NEPB, ELECTRICIDAD, 0.0004, 0.001"),
+        r("0, PRODUCCION, EL_INSITU, 0.0004, 0.5015"),
+        r("0, PRODUCCION, EL_INSITU, 0.002, 0.25"),
+        r("0, PRODUCCION, EL_INSITU, 0.0009, 0.0009"),
+        m(&["2, PRODUCCION, EL_COGEN, 0.0004, 0.0012", "2, CONSUMO, COGEN, GASNATURAL, 0.001, 0.003"]),
+        m(&["2, PRODUCCION, EL_COGEN, 0.5, 0.0005", "2, CONSUMO, COGEN, BIOMASA, 1.25, 0.002"]),
+        r("1, CONSUMO, ACS, EAMBIENTE, 0.0008, 0.5"),
+        r("1, PRODUCCION, EAMBIENTE, 0.0015, 0.4995"),
+        r("1, CONSUMO, CAL, GASNATURAL, 0.0007, 1"),
+    ]
+}
+
+/// LONG: complete buildings with 13, 24 and 8760 (hourly) steps, every step regime occurring many times
+pub fn long_bases() -> Vec<(String, String)> {
+    let mut out = vec![];
+    for t in [13usize, 24, 8760] {
+        let series = |f: &dyn Fn(usize) -> f64| -> String { (0..t).map(|i| format!("{}", (f(i) * 100.0).round() / 100.0)).collect::<Vec<_>>().join(", ") };
+        let used = series(&|i| [4.0, 1.0, 0.0, 2.5, 8.0, 0.5, 3.0][i % 7]);
+        let nepb = series(&|i| [0.0, 2.0, 1.0][i % 3]);
+        let pv = series(&|i| [0.0, 0.0, 3.0, 6.0, 1.0][i % 5]);
+        let chp = series(&|i| [2.0, 0.0, 1.0, 2.0][i % 4]);
+        let fuel = series(&|i| [5.0, 0.0, 2.5, 6.0][i % 4]);
+        let amb = series(&|i| [1.0, 3.0][i % 2]);
+        let ambp = series(&|i| [2.0, 1.0, 0.0][i % 3]);
+        let l_use = format!("0, CONSUMO, ILU, ELECTRICIDAD, {used}\n");
+        let l_acs = format!("1, CONSUMO, ACS, ELECTRICIDAD, {nepb}\n");
+        let l_nepb = format!("0, CONSUMO, NEPB, ELECTRICIDAD, {nepb}\n");
+        let l_pv = format!("0, PRODUCCION, EL_INSITU, {pv}\n");
+        let l_chp = format!("2, PRODUCCION, EL_COGEN, {chp}\n2, CONSUMO, COGEN, GASNATURAL, {fuel}\n");
+        let l_amb = format!("1, CONSUMO, ACS, EAMBIENTE, {amb}\n1, PRODUCCION, EAMBIENTE, {ambp}\n");
+        out.push((format!("T={t} use+PV+CHP"), format!("{l_use}{l_acs}{l_pv}{l_chp}")));
+        out.push((format!("T={t} use+nEPB+PV+CHP+ambient"), format!("{l_use}{l_nepb}{l_pv}{l_chp}{l_amb}")));
+        if t < 1000 {
+            out.push((format!("T={t} use+PV"), format!("{l_use}{l_pv}")));
+            out.push((format!("T={t} CHP only"), format!("{l_use}{l_chp}")));
+        }
+    }
+    out
 }
